@@ -194,6 +194,10 @@ func flattenViewAcc(roots []*MNode) []refEntry {
 }
 
 func diskFilesSx(dir string) Sx {
+	// a broken receiver can replace the destination itself (by a FIFO: opening it would block for ever)
+	if fi, err := os.Lstat(dir); err != nil || !fi.IsDir() {
+		return L(N(0), L(), S("destination is not a directory any more"))
+	}
 	snap, err := SnapshotRaw(dir, true)
 	if err != nil {
 		return L(N(0), L(), S(err.Error()))
